@@ -279,6 +279,10 @@ def check_case(case):
     if fn == "mask":
         f = case["features"]
         kind = case["kind"]
+        for fname in ("create_alternating_binary_mask", "create_mid_split_binary_mask", "create_random_binary_mask"):
+            cc = getattr(getattr(tu, fname), "cache_clear", None)
+            if cc is not None:
+                cc()  # a memoising wrapper keeps state between cases: every case starts from an empty memo, so that findings replay
         half = (f + 1) // 2
         if kind == "alternating":
             m = tu.create_alternating_binary_mask(f, even=case["even"])
